@@ -120,18 +120,20 @@ G.update({
            "103/104; the 1 failure (tesh-self-background) is load flakiness: " + FLAKY),
     "G10": (["mc-timeout-loses-cancel"], "104/104"),
 })
-G11 = ["link-failure-skips-disabled-variables", "suspended-yield-skips-recheck", "expand-activates-only-enabled",
-       "fatpipe-usage-wrong-penalty", "loop-delay-index-drift", "watts-use-current-pstate-speed",
-       "bypass-search-bounded-by-min-depth", "dijkstra-cache-early-exit", "torus-odd-dimension-wrap-tie"]
+G11B = ["link-failure-skips-disabled-variables", "suspended-yield-skips-recheck", "fatpipe-usage-wrong-penalty",
+        "loop-delay-index-drift", "watts-use-current-pstate-speed", "bypass-search-bounded-by-min-depth",
+        "dijkstra-cache-early-exit", "torus-odd-dimension-wrap-tie", "hindexed-serialize-stops-at-empty-block"]
+# (the first run of this group also held a C15 candidate that broke java-energy_exec_ptask and
+# java-exec_ptask_multicore_latency: found by bisection, discarded, the group re-run without it)
 G12 = ["ptask-failure-checks-first-host-only", "restart-shares-on-exit-list", "maxmin-light-tab-stale-backpointer",
        "bmf-check-any-instead-of-all", "ti-solve-wrap-test-full-amount", "exec-start-update-skipped-when-busy",
        "floyd-intermediate-zone-leg-reversed", "floyd-skips-direct-routes", "star-dedup-adjacent-only"]
-for gname, names in (("G11", G11), ("G12", G12), ("G13", [])):
-    lp = "/tmp/station_seeds_%s.log" % gname
-    if names and os.path.exists(lp):  # result of the group's station run, when it is still on disk
-        t = open(lp).read()
-        if "100% tests passed" in t:
-            G[gname] = (names, "104/104")
+G13 = ["maxmin-absolute-precision-selection", "suspend-skips-lazy-update-when-current",
+       "disk-write-bandwidth-updates-read-constraint", "raw-model-caches-tcp-gamma", "ptask-cpu-bound-breaks-at-zero-flops"]
+G.update({"G12": (G12, "104/104"), "G13": (G13, "104/104")})
+lp = "/tmp/station_seeds_G11b.log"
+if os.path.exists(lp) and "100% tests passed" in open(lp).read():
+    G["G11"] = (G11B, "104/104")
 for g, (names, res) in G.items():
     for n in names:
         if len(names) == 1:
@@ -144,6 +146,7 @@ STRENGTHENED = {
     "sem-lock-capacity-threshold": "first run missed (only the mutex group had commutation lemmas); C39 now has semaphore LOCK/UNLOCK commutation harnesses on the real SemaphoreImpl code",
     "recv-eager-threshold-inclusive": "first run missed (Request::start was not a unit); C28 now has the mailbox-choice contract of Request::start",
     "destroy-skips-flush-same-date": "first run missed (Container::~Container was not a unit); C47 now has the destructor's flush-before-signal contract",
+    "uint64-reduced-as-signed": "first run missed in the quick tier (the MPI_UINT64_T cases ran in the thorough tier only); max/min on MPI_UINT64_T are in the quick tier now",
     "rank-negative-multiple-wrap": "first run missed (the wrapped-value clause of Cart_rank is undecided for 4 dimensions and not claimed); C33 now has a lemma on the real body of rank for 1- and 2-dimensional topologies",
     "s4u-fast-path-last-arriver": "first run missed (s4u::Barrier::wait was not a unit); C07 now has the contract of Barrier::wait over a model of the simcall layer (exact event sequence)",
     "irecv-skips-lookup-behind-filtered-recv": "first run missed (the receive side was not under contract); C08 now has the contract of CommImpl::irecv (oldest acceptable send, else queued at the tail)",
